@@ -231,6 +231,11 @@ func suiteBudget(o *suiteOut, r *rng, tier string, n int) {
 		nr = n
 	}
 	progs := append([]string{}, controlFixed...)
+	// a user handler for the error name of the budget error: running out of budget is not a PostScript error and
+	// never reaches errordict, also when it happens inside an operator that runs a procedure
+	progs = append(progs, "errordict /interrupt { 42 } put 10 { 1 pop } repeat 7", "errordict /interrupt { } put 1 1 20 { pop } for (x)",
+		"errordict /interrupt { pop 99 } put [1 2 3 4 5 6] { pop } forall 8", "errordict /interrupt { 1 } put { 1 2 3 pop pop pop } exec { 4 pop } exec 5",
+		"errordict /interrupt { /handled true def } put true { 1 2 add pop 3 4 add pop } if 6", "errordict /interrupt { } put 5 { 2 { 1 pop } repeat } repeat")
 	for i := 0; i < nr; i++ {
 		if r.chance(1, 2) {
 			g := &ctlGen{r: r}
